@@ -14,8 +14,9 @@ Outer invariant (theory and lemmas: contracts/fcbo_theory.py)
   C   every closed D is yielded or lies in the subtree In(K,y,D) of some entry
   D   the subtrees of the entries are pairwise disjoint and contain no yielded key
   E   only closed keys are yielded
-Inner invariant (k attributes j = W-1 .. W-k handled, entry (K,y) popped, l_n the copied list):
-  a   Cnt = Cnt_0 + [ (B,y2) is the child (CJ(K,y2-1), y2) of a handled valid attribute y2-1 ],   b  Lst likewise (children carry l_n)
+Inner invariant (k attributes handled: j = W-1 .. W-k, or j = y .. y+k-1 when the code iterates them in ascending order; entry (K,y) popped,
+l_n the copied list; children are pushed with index j + off, off = 1 or 0 -- order and off are read off the code on each path, see `P`):
+  a   Cnt = Cnt_0 + [ (B,y2) is the child (CJ(K,j), j + off) of a handled valid attribute j ],   b  Lst likewise (children carry l_n)
   c   other lists unchanged;  y <= j < W:  Cont(l_n, j) <= CJ(K, j)
 Exit (stack empty): by C every closed key has been yielded; by D (obliged at each yield: not Y(K)) none twice.
 """
@@ -25,7 +26,7 @@ from pyvc.bits import atomv, band, bit, bor
 from pyvc.engine import BoolV, FuncV, IntV, IterV, ListV, LoopSpec, NONE, ObjV, TupleV
 from contracts import lib
 from contracts.contexts import full_context_obj
-from contracts.fcbo import _at, st_line_closed, st_line_derivation
+from contracts.fcbo import _at, loop_roles, st_line_closed, st_line_derivation
 from contracts.fcbo_theory import CbO, _theory, maskv
 from contracts.lemmas_z3 import ext, st_cl_def, st_least, st_up_cl, use_galois
 from contracts.registry import Unit, register
@@ -34,18 +35,35 @@ I = IntSort()
 B = BoolSort()
 
 
-def _unit(dual):
+def _unit(name, dual):
     def make():
         C, T, axioms = _theory(dual)
         S, W = T.S, T.W
 
         def harness(path):
             cnt = path.eng.counter
+            roles = loop_roles(name)        # the name of the stack variable, read off the real AST (robust against renamed locals)
 
             def fn(name, n, rng=I):
                 return Function('%s!%d' % (name, next(cnt)), *([I] * n + [rng]))
             G = path.ghost
             st = {}
+            # The shape of the inner invariant, read off the code on this path when the inner loop is reached (`read_shape`), never
+            # assumed: every obligation below is generated for the shape that was read, so a wrong reading loses obligations.
+            #   off  the child of attribute j is pushed with index j + off; off = 1 (skip j) or off = 0 (j is in the child's key: the
+            #        child looks at it once more and skips it; same subtree by lemma.cbo.child_index)
+            #   asc  the attributes y .. W-1 are handled in ascending order (else descending): after k iterations the handled ones
+            #        are y <= j < y + k (else W - k <= j < W); the emission order is not part of C04
+            P = {'off': 1, 'asc': False}
+
+            def cidx(j):
+                return j + 1 if P['off'] else j
+
+            def attr(y2):
+                return y2 - 1 if P['off'] else y2
+
+            def index_hints(K, j, d):
+                return [] if P['off'] else [T.st_union(K, j), T.st_child_index(K, j, d)]
             b_, y_, l_, j_, d_ = Ints('b_ y_ l_ j_ d_')
 
             def fresh_state(names=('Cnt', 'Lst', 'Cont', 'Y')):
@@ -72,6 +90,9 @@ def _unit(dual):
 
                 def getitem(p, args, kw):
                     _, i = args
+                    if G.get('cur'):
+                        # the inherited failed set of attribute i is read: the lemma instances for the candidate of i (before it is computed)
+                        use_lemmas(p, i.t)
                     p.oblige('index@failed_sets', 'index', And(i.t >= 0, i.t < W))
                     v = st['Cont'](lid, i.t)
                     if G.get('cur'):
@@ -149,6 +170,7 @@ def _unit(dual):
                 p.oblige('push/key-not-on-stack', 'pre@call', st['Cnt'](k.t, yy) == 0)
                 upd2('Cnt', k.t, yy, st['Cnt'](k.t, yy) + 1)
                 upd2('Lst', k.t, yy, entry.items[2].lid)
+                G.setdefault('pushed', []).append((k.t, yy))
                 return NONE
             stack.fields['pop'] = FuncV('stack.pop', pop)
             stack.fields['append'] = FuncV('stack.append', append)
@@ -182,14 +204,14 @@ def _unit(dual):
                 f, cs = q(phase, [b_, y_], lambda b, y: And(Cnt(b, y) >= 0, Implies(Cnt(b, y) > 0, And(Cnt(b, y) == 1, T.closed(b), 0 <= y, y <= W))),
                           lambda b, y: [Cnt(b, y)])
                 if cs and cur:
-                    path.assume([T.st_union(cur[0], cs[1] - 1), T.bridge(cur[0], cs[1] - 1)])
+                    path.assume([T.st_union(cur[0], attr(cs[1])), T.bridge(cur[0], attr(cs[1]))])
                 out.append(('A entries', f))
                 # B
                 f, cs = q(phase, [b_, y_, j_], lambda b, y, j: Implies(And(Cnt(b, y) > 0, y <= j, j < W),
                                                                      And(Cont(Lst(b, y), j) >= 0, T.sub(Cont(Lst(b, y), j), T.CJ(b, j)))),
                           lambda b, y, j: [MultiPattern(Cnt(b, y), Cont(Lst(b, y), j))])
                 if cs and cur:
-                    path.assume([T.st_union(cur[0], cs[1] - 1), T.st_mono(cur[0], cs[0], cs[2]), T.bridge(cur[0], cs[1] - 1)])
+                    path.assume([T.st_union(cur[0], attr(cs[1])), T.st_mono(cur[0], cs[0], cs[2]), T.bridge(cur[0], attr(cs[1]))])
                 out.append(('B failed-sets-sound', f))
                 # C
                 if phase == 'assume':
@@ -206,22 +228,24 @@ def _unit(dual):
                     K, y, lid = cur
                     oB, oY = own
                     jd = T.jmin(K, d)
-                    path.assume([T.st_child_exists(K, y, d), T.st_leaf(K, d), T.st_full(K), T.bridge(K, jd)])
+                    path.assume([T.st_child_exists(K, y, d), T.st_leaf(K, d), T.st_full(K), T.bridge(K, jd)] + index_hints(K, jd, d))
                     out.append(('C coverage', Implies(T.closed(d), Or(Y(d),
                                                                       And(Cnt(oB(d), oY(d)) > 0, T.In(oB(d), oY(d), d)),
-                                                                      And(Cnt(T.CJ(K, jd), jd + 1) > 0, T.In(T.CJ(K, jd), jd + 1, d))))))
+                                                                      And(Cnt(T.CJ(K, jd), cidx(jd)) > 0, T.In(T.CJ(K, jd), cidx(jd), d))))))
                 # D
                 f, cs = q(phase, [d_, b_, y_], lambda d, b, y: Implies(And(Cnt(b, y) > 0, T.In(b, y, d), T.closed(d)), Not(Y(d))),
                           lambda d, b, y: [MultiPattern(T.agree(b, d, y), Cnt(b, y))])
                 if cs and cur:
-                    path.assume([T.st_child_inside(cur[0], cur[1], cs[2] - 1, cs[0]), T.bridge(cur[0], cs[2] - 1)])
+                    path.assume([T.st_child_inside(cur[0], cur[1], attr(cs[2]), cs[0]), T.bridge(cur[0], attr(cs[2]))]
+                                + index_hints(cur[0], attr(cs[2]), cs[0]))
                 out.append(('D1 yielded-keys-are-in-no-subtree', f))
                 f, cs = q(phase, [d_, b_, y_, l_, j_], lambda d, b, y, b2, y2: Implies(
                     And(Cnt(b, y) > 0, Cnt(b2, y2) > 0, T.In(b, y, d), T.In(b2, y2, d), T.closed(d)), And(b == b2, y == y2)),
                     lambda d, b, y, b2, y2: [MultiPattern(T.agree(b, d, y), T.agree(b2, d, y2), Cnt(b, y), Cnt(b2, y2))])
                 if cs and cur:
-                    path.assume([T.st_child_inside(cur[0], cur[1], cs[2] - 1, cs[0]), T.st_child_inside(cur[0], cur[1], cs[4] - 1, cs[0]),
-                                 T.bridge(cur[0], cs[2] - 1), T.bridge(cur[0], cs[4] - 1)])
+                    path.assume([T.st_child_inside(cur[0], cur[1], attr(cs[2]), cs[0]), T.st_child_inside(cur[0], cur[1], attr(cs[4]), cs[0]),
+                                 T.bridge(cur[0], attr(cs[2])), T.bridge(cur[0], attr(cs[4]))]
+                                + index_hints(cur[0], attr(cs[2]), cs[0]) + index_hints(cur[0], attr(cs[4]), cs[0]))
                 out.append(('D2 subtrees-disjoint', f))
                 # E
                 f, cs = q(phase, [d_], lambda d: Implies(Y(d), T.closed(d)), lambda d: [Y(d)])
@@ -229,7 +253,7 @@ def _unit(dual):
                 return out
 
             def outer_inv(en, phase):
-                sv = en.val('stack')
+                sv = en.val(roles['stack'])
                 if phase == 'entry':
                     # the concrete one-element stack [(root concept, 0, [empty set] * W)]
                     ok = (isinstance(sv, ListV) and len(sv.items) == 1 and isinstance(sv.items[0], TupleV) and len(sv.items[0].items) == 3
@@ -257,7 +281,7 @@ def _unit(dual):
             def head_havoc(p, env_):
                 fresh_state()
             outer_spec = LoopSpec(outer_inv, ghost_havoc=head_havoc, phased=True)
-            outer_spec.modifies = ['stack']
+            outer_spec.modifies = [roles['stack']]
 
             def inner_inv(en, k, phase):
                 K, y, lid = G['cur']
@@ -265,10 +289,25 @@ def _unit(dual):
                 if phase == 'entry':
                     G['st0'] = dict(st)
                 s0 = G['st0']
+                if phase == 'assume':
+                    G['pushed'] = []        # the pushes of the iteration that starts here
                 if phase == 'preserve':
-                    path.assume(T.bridge(K, en.j))        # definitions of validp / CJf for the attribute of this iteration
+                    # definitions of validp / CJf for the attribute of this iteration (first component of the current item of the loop)
+                    jcur = G['iter#1'].at(G['k#1']).items[0].t
+                    path.assume(T.bridge(K, jcur))
+                    # cut: the iteration has pushed exactly the child of its attribute if that attribute is valid, else nothing (proved once
+                    # from the tests the code made on this path; the three big obligations below then need no bit-level reasoning)
+                    pushed = G.get('pushed', [])
+                    if not pushed:
+                        cut = Not(T.validp(K, jcur))
+                    elif len(pushed) == 1:
+                        cut = And(T.validp(K, jcur), pushed[0][0] == T.CJf(K, jcur), pushed[0][1] == cidx(jcur))
+                    else:
+                        cut = BoolVal(False)
+                    path.oblige('inner/pushed-iff-valid-candidate', 'lemma', cut)
                 Cnt, Lst, Cont = st['Cnt'], st['Lst'], st['Cont']
-                child = lambda b, y2: And(W - k <= y2 - 1, y2 - 1 < W, y <= y2 - 1, T.validp(K, y2 - 1), b == T.CJf(K, y2 - 1))
+                handled = (lambda j: j < y + k) if P['asc'] else (lambda j: W - k <= j)        # among the attributes y <= j < W
+                child = lambda b, y2: And(handled(attr(y2)), attr(y2) < W, y <= attr(y2), T.validp(K, attr(y2)), b == T.CJf(K, attr(y2)))
                 out = []
                 f, cs = q(phase, [b_, y_], lambda b, y2: Cnt(b, y2) == s0['Cnt'](b, y2) + If(child(b, y2), 1, 0), lambda b, y2: [Cnt(b, y2)])
                 out.append(('a stack = entry stack + valid children handled so far', f))
@@ -287,6 +326,35 @@ def _unit(dual):
                 fresh_state(('Cnt', 'Lst', 'Cont'))
             inner_spec = LoopSpec(inner_inv, ghost_havoc=inner_havoc, phased=True)
 
+            def read_shape(p, env_):
+                """reads P (see above) off the code: the iteration order from the iterable of the inner loop, the index a child is
+                pushed with from the `<stack>.append((concept, INDEX, sets))` call in the body of the inner loop (evaluated for a symbolic
+                attribute).  Anything that cannot be read keeps the default; the obligations decide."""
+                import ast
+                import z3
+                interp = p.interp
+                K, y, lid = G['cur']
+                it = G.get('iter#1')
+                try:
+                    first = z3.simplify(it.at(IntVal(0)).items[0].t - y)
+                    P['asc'] = bool(z3.is_int_value(first) and first.as_long() == 0)
+                except (AttributeError, IndexError, TypeError, z3.Z3Exception):
+                    pass
+                try:
+                    (loop,) = [n for n in ast.walk(interp.x.node) if isinstance(n, ast.For) and interp.loop_ordinals.get(id(n)) == 1]
+                    (push,) = [n for n in ast.walk(loop) if isinstance(n, ast.Call) and isinstance(n.func, ast.Attribute) and n.func.attr == 'append'
+                               and isinstance(n.func.value, ast.Name) and env_.get(n.func.value.id) is stack
+                               and len(n.args) == 1 and isinstance(n.args[0], ast.Tuple) and len(n.args[0].elts) == 3]
+                    jj = p.fresh_int('jj')
+                    inner = dict(env_)
+                    interp.assign(loop.target, TupleV([IntV(jj), IntV(atomv(jj), T.key_tag)]), inner)
+                    d = z3.simplify(interp.eval(push.args[0].elts[1], inner).t - jj)
+                    if z3.is_int_value(d) and d.as_long() in (0, 1):
+                        P['off'] = d.as_long()
+                except Exception:        # the default stands (e.g. the index goes through a local of the loop body); the obligations decide
+                    pass
+            inner_spec.on_entry = read_shape
+
             # ---- the context, bitset classes, library contracts
             ctx = full_context_obj(C)
             ctx.fields['shape'] = ObjV('Shape', {'objects': IntV(C.n), 'properties': IntV(C.m)})
@@ -297,10 +365,9 @@ def _unit(dual):
                 meths[(tag, 'atoms')] = FuncV(tag + '.atoms', lambda p, args, kw, _t=tag, _w=width:
                                               IterV(lambda t: IntV(atomv(t), _t), _w, 'atoms'))
 
-            def use_lemmas(p, e):
+            def use_lemmas(p, j):
                 # `use lemma` before the candidate is computed: for the attribute j of this iteration
                 K, y, lid = G['cur']
-                j = e.j
                 p.assume([T.bridge(K, j), T.st_union(K, j), T.st_canon_test(K, j), st_line_closed(C, 'row' if dual else 'col', j),
                           st_line_derivation(C, 'row' if dual else 'col', j)])
                 KJ = bor(K, atomv(j))
@@ -310,10 +377,9 @@ def _unit(dual):
                 use_galois(p, T.D, band(S.up(K), T.line(j)))
                 # the head invariants for the candidate key (it is not on the stack): instances of lemma.cbo.child_inside
                 CJ = T.CJ(K, j)
-                p.assume(T.st_child_inside(K, y, j, CJ))
+                p.assume([T.st_child_inside(K, y, j, CJ)] + index_hints(K, j, CJ))
             loops = {'int_methods': meths, 'globals': lib.builtins(), 0: outer_spec, 1: inner_spec, 'on_yield': on_yield,
-                     'havoc_stack': lambda p, cur: stack, 'list_repeat': list_repeat,
-                     'before_assign_to': {('x'): use_lemmas},
+                     'havoc_' + roles['stack']: lambda p, cur: stack, 'list_repeat': list_repeat,
                      'havoc_concept': lambda p, cur: NONE}
 
             def finish(path, env_, outcome):
@@ -343,7 +409,7 @@ def _unit(dual):
 
 
 for _name, _dual in (('fast_generate_from', False), ('fcbo_dual', True)):
-    register(Unit('fcbo.%s.complete' % _name, 'concepts/algorithms/fcbo.py', _name, _unit(_dual),
+    register(Unit('fcbo.%s.complete' % _name, 'concepts/algorithms/fcbo.py', _name, _unit(_name, _dual),
                   assumptions=['the stack as a multiset of (key, index, list identity): pop returns SOME entry (emission order is not part of C04); '
                                'list truthiness = some entry on it',
                                'failed-sets lists as heap objects: copy() allocates a new object, element assignment updates that object only',
